@@ -20,7 +20,7 @@ def run(ctx):
         ctx.stage("c17" + suffix, "lib/crunchrun", "crunchrun", ["C17/zz_verif_c17_test.go"], "TestVerifC17$",
                   n * mult, hdr(), seed_offset=off, shard=40, replace=rep, env={"VERIF_STAGE": "c17" + suffix})
 
-    return standard(ctx, "C17", ["model/C17_run.vo", "lib/Bytes63.vo"], stages, known_bits={4: "F11", 8: "F16", 16: "F17", 32: "F18", 64: "F19"},
+    return standard(ctx, "C17", ["model/C17_run.vo", "lib/Bytes63.vo"], stages, known_bits={4: "F11", 8: "F16", 16: "F18"},
                     rule="real directory trees under TMPDIR (depth <= 4, <= 40 entries, odd names, relative/absolute links, chains, "
                          "cycles, fifos) + 0-2 read-only collection mounts (C10 generator) + 0-2 secret mounts + optional excluded, "
                          "json and second tmp mounts; distinct by hash of the case term; non-trivial = at least 4 entries",
